@@ -450,13 +450,25 @@ func formatFits(s, f string) (Verdict, string) {
 		if regexp.MustCompile(`^[0-9a-fA-F]{8}-[0-9a-fA-F]{4}-[0-9a-fA-F]{4}-[0-9a-fA-F]{4}-[0-9a-fA-F]{12}$`).MatchString(s) {
 			return Sat, ""
 		}
-		if len(s) != 36 && len(s) != 32 && len(s) != 38 && len(s) != 45 {
+		canonical := regexp.MustCompile(`^[0-9a-fA-F]{8}-[0-9a-fA-F]{4}-[0-9a-fA-F]{4}-[0-9a-fA-F]{4}-[0-9a-fA-F]{12}$`)
+		switch len(s) {
+		case 45: // URN form; the prefix is case-insensitive (RFC 2141 / RFC 4122)
+			if strings.EqualFold(s[:9], "urn:uuid:") && canonical.MatchString(s[9:]) {
+				return Sat, ""
+			}
+			return no()
+		case 38: // Microsoft form in braces
+			if s[0] == '{' && s[37] == '}' && canonical.MatchString(s[1:37]) {
+				return Sat, ""
+			}
+			return no()
+		case 32: // 32 hex digits
+			if regexp.MustCompile(`^[0-9a-fA-F]{32}$`).MatchString(s) {
+				return Sat, ""
+			}
 			return no()
 		}
-		if len(s) == 36 && regexp.MustCompile(`[^0-9a-fA-F-]`).MatchString(s) {
-			return no()
-		}
-		return Unspec, "non-canonical uuid spelling"
+		return no()
 	case "date":
 		if !regexp.MustCompile(`^[0-9]{4}-[0-9]{2}-[0-9]{2}$`).MatchString(s) {
 			return no()
